@@ -7,14 +7,14 @@ from tools import proto, vlib
 
 
 class C40(vlib.Spec):
-    model_vo = ["theories/Proto/RaftNet.vo"]
+    model_vo = ["theories/Proto/RaftNet.vo", "theories/Proto/PaxosCheck.vo"]
     props_vo = "theories/Props/C40.vo"
     theorems = ["C40_raft_term_monotone", "C40_raft_vote_once_per_term", "C40_raft_commit_monotone",
                 "C40_raft_election_safety", "C40_raft_leader_append_only", "C40_raft_sms_partial", "C40_raft_log_wf",
                 "C40_raft_committed_prefix_stable", "C40_raft_leader_commit_rule", "C40_raft_log_matching",
-                "C40_raft_sms_from_leader_completeness"]
+                "C40_raft_sms_from_leader_completeness", "C40_paxos_safety"]
     crate, group, binary = "h_raft", "hydro", "h_raft"
-    imports = "From HV Require Import Proto.RaftNet."
+    imports = "From HV Require Import Proto.RaftNet.\nFrom HV Require Proto.PaxosCheck."
     level = "other"
     trusted_base = ["coqc 8.16.1 kernel (vm_compute used for case evaluation only)",
                     "hand transcription of hydro_test/src/cluster/raft.rs raft_step into coq/theories/Proto/RaftModel.v",
@@ -24,7 +24,11 @@ class C40(vlib.Spec):
                    "the Hydro dataflow wiring around raft_step (raft_server: batching per tick, network demux) is not modelled; "
                    "the transition system lets a member consume any list of ever-sent messages per step",
                    "usize modelled as unbounded N; HashSet/HashMap compared after sorting",
-                   "Paxos (paxos.rs, paxos_with_client.rs) is NOT covered by this check"]
+                   "Paxos: the safety theorem is about the ABSTRACT multi-Paxos transition system (Proto/PaxosModel.v); the tie "
+                   "to paxos.rs is component-level only: the real recommit_after_leader_election (new leader's p2a choice) and "
+                   "index_payloads (slot bookkeeping) are run through the embedded code generator (harness/h_paxos) and "
+                   "checked to be instances of the abstract rule; the full Hydro Paxos program (leader election timers, "
+                   "acceptors, networking, paxos_with_client.rs) is NOT run"]
     rule = ("cluster cases: n in 3..5 members, decision-list schedules (election rounds, replication rounds, racing "
             "candidacies, partial FIFO/reordered/duplicated deliveries, crashes) executed with the REAL raft_step; "
             "step cases: arbitrary (partly ill-formed) states and message batches incl. panicking ones; "
@@ -38,7 +42,8 @@ class C40(vlib.Spec):
         "'SMS follows from Leader Completeness' (C40_raft_sms_from_leader_completeness); missing: Leader Completeness itself (LCstar). "
         "Every run additionally compares the real raft_step field by field with the model on generated calls and "
         "evaluates election safety / log matching / SMS on whole cluster runs executed with the real raft_step. "
-        "Paxos is not covered.")
+        "Paxos: abstract multi-Paxos safety (one value per slot) is proved (C40_paxos_safety); the code tie is "
+        "component-level (recommit_after_leader_election, index_payloads), the full Hydro Paxos program is not run.")
 
     def gen(self, rng, tier, n):
         cases = []
@@ -47,20 +52,46 @@ class C40(vlib.Spec):
         ncl = n // 6
         for i in range(ncl):
             cases.append(proto.gen_cluster(rng, tier, small=(i % 10 == 9)))
-        while len(cases) < n:
+        npx = n // 8
+        while len(cases) < n - npx:
             cases.append(proto.gen_step(rng, tier))
+        for _ in range(npx):
+            cases.append(proto.gen_px(rng, tier))
         return cases
 
+    # Paxos component cases run the real hydro_test functions compiled through the embedded code generator
+    # (harness/h_paxos); built and run here, per case, also on replay.
+    px_results = {}
+
+    def px_bin(self):
+        if not hasattr(self, "_px"):
+            ok, bindir, log = vlib.cargo_build("h_paxos", "hydro")
+            self._px = os.path.join(bindir, "h_paxos") if ok else None
+            if not ok:
+                self.ctx.log("h_paxos build failed:\n" + log[-2000:])
+        return self._px
+
     def n_cases(self, tier):
-        return 720 if tier == "quick" else 6000
+        return 480 if tier == "quick" else 6000
 
     def to_coq(self, case, res):
+        if case["k"].startswith("px_"):
+            b = self.px_bin()
+            if b is None:
+                return 1
+            r = vlib.run_harness(self.ctx, b, [case], name="px")[0]
+            self.px_results[vlib.case_hash(case)] = r
+            return proto.px_term(case, r)
         return proto.raft_term(case, res)
 
     def shrink(self, case):
         return proto.shrink_raft(case)
 
     def nontrivial(self, case, res):
+        if case["k"] == "px_recommit":
+            return any(l["entries"] for l in case["logs"])
+        if case["k"] == "px_index":
+            return any(t["payloads"] for t in case["ticks"])
         if case["k"] == "cluster":
             st = proto.raft_stats(case, res)
             return bool(st["leaders"]) and st["commit"] > 0
@@ -68,6 +99,8 @@ class C40(vlib.Spec):
         return bool(i["msgs"]) or i["el"] or i["hb"]
 
     def describe(self, case, res):
+        if case["k"].startswith("px_"):
+            return {"kind": case["k"], "case": case, "impl": self.px_results.get(vlib.case_hash(case))}
         if case["k"] == "cluster":
             st = proto.raft_stats(case, res)
             return {"kind": "cluster", "n": case["n"], "mode": case["mode"], "sched": case["sched"][:12],
@@ -80,6 +113,9 @@ class C40(vlib.Spec):
              "runs_with_commit": 0, "runs_with_2plus_leaders": 0, "runs_with_truncation": 0, "cluster_steps": 0,
              "max_commit": 0, "max_log": 0, "cluster_panics": 0, "step_panics": 0, "msg_kinds": {}}
         for c, r in zip(cases, results):
+            if c["k"].startswith("px_"):
+                d[c["k"]] = d.get(c["k"], 0) + 1
+                continue
             if c["k"] == "cluster":
                 st = proto.raft_stats(c, r)
                 d["cluster_runs"] += 1
